@@ -123,7 +123,7 @@ def check(case):
                     a = aggs[s[1]]
                     v = list(range(n)) if a["inner"] == "*" else [m[inners.index(a["inner"])] for m in members]
                     ref = n if a["f"] == "count" else c07.reference(a["f"], v)
-                    why = c07.compare(a["f"], r[si], ref)
+                    why = c07.compare(a["f"], r[si], ref, v)
                     if why:
                         out.add("C08/group-aggregate/%s" % a["f"], query=gq, key=list(kt), column=c07.agg_text(a),
                                 cell=r[si], reference=str(float(ref)) if ref is not None else None, members=n, why=why)
@@ -164,7 +164,7 @@ def check(case):
                 n = len(members)
                 v = list(range(n)) if a["inner"] == "*" else [m[inners.index(a["inner"])] for m in members]
                 ref = n if a["f"] == "count" else c07.reference(a["f"], v)
-                if c07.compare(a["f"], cell, ref):
+                if c07.compare(a["f"], cell, ref, v):
                     out.add("C08/restriction-differs/%s" % a["f"], restricted_query=rq, cell=cell, reference=str(ref), key=list(kt))
         # ORDER BY over group rows
         if case["order"] and grows:
